@@ -1,6 +1,7 @@
 import Chain33Model.Model.C27
 import Chain33Model.Proofs.C27Lift
 import Chain33Model.Proofs.C28Inv
+import Chain33Model.Proofs.C27Linked
 /-!
 C28 — the TxHeight duplicate window.  The running `txHashCache` holds (at least) every TxHeight
 transaction of the last `hi + lo` blocks of the best chain — across connectBlock, disconnectBlock,
@@ -12,77 +13,6 @@ open C25 (Map upd)
 
 /-- `Transaction.Hash()` covers the Expire field. -/
 def HashLaw (T : Table) : Prop := ∀ i j, (T i).hash = (T j).hash → (T i).exp = (T j).exp
-
-/-- `Block.Hash` covers parent hash and height. -/
-def HeaderLaw (U : List Blk) : Prop :=
-  ∀ a ∈ U, ∀ b ∈ U, a.id = b.id → a.parent = b.parent ∧ a.height = b.height
-
-/-- the chain view: tip first, each block on its parent, one higher, down to `g`. -/
-def Linked (g : Blk) : List Blk → Prop
-  | [] => False
-  | [x] => x = g
-  | a :: b :: r => a.parent = b.id ∧ a.height = b.height + 1 ∧ Linked g (b :: r)
-
-theorem Linked.tail_lt {g : Blk} : ∀ {l : List Blk} {a : Blk}, Linked g (a :: l) → ∀ x ∈ l, x.height < a.height := by
-  intro l
-  induction l with
-  | nil => intro a _ x hx; cases hx
-  | cons b r ih =>
-    intro a h x hx
-    obtain ⟨_, hh, hl⟩ := h
-    rcases List.mem_cons.mp hx with rfl | hx'
-    · omega
-    · have := ih hl x hx'; omega
-
-theorem Linked.tail {g : Blk} {a b : Blk} {r : List Blk} (h : Linked g (a :: b :: r)) : Linked g (b :: r) := h.2.2
-
-theorem Linked.mem_g {g : Blk} : ∀ {l : List Blk}, Linked g l → g ∈ l := by
-  intro l
-  induction l with
-  | nil => intro h; cases h
-  | cons a r ih =>
-    intro h
-    cases r with
-    | nil => have : a = g := h; simp [this]
-    | cons b r' => exact List.mem_cons_of_mem _ (ih h.2.2)
-
-/-- every height from `g`'s up to the tip's is taken. -/
-theorem Linked.at_height {g : Blk} (hg : g.height = 0) : ∀ {l : List Blk} {a : Blk}, Linked g (a :: l) →
-    ∀ h, h ≤ a.height → ∃ x ∈ a :: l, x.height = h := by
-  intro l
-  induction l with
-  | nil =>
-    intro a hl h hh
-    have : a = g := hl
-    subst this
-    exact ⟨a, by simp, by omega⟩
-  | cons b r ih =>
-    intro a hl h hh
-    obtain ⟨_, hab, hl'⟩ := hl
-    by_cases he : h = a.height
-    · exact ⟨a, by simp, he.symm⟩
-    · obtain ⟨x, hx, hxh⟩ := ih hl' h (by omega)
-      exact ⟨x, List.mem_cons_of_mem _ hx, hxh⟩
-
-theorem Linked.height_inj {g : Blk} : ∀ {l : List Blk}, Linked g l → ∀ x ∈ l, ∀ y ∈ l, x.height = y.height → x = y := by
-  intro l
-  induction l with
-  | nil => intro h; cases h
-  | cons a r ih =>
-    intro hl x hx y hy hxy
-    cases r with
-    | nil =>
-      simp only [List.mem_singleton] at hx hy
-      rw [hx, hy]
-    | cons b r' =>
-      have hlt := Linked.tail_lt hl
-      rcases List.mem_cons.mp hx with rfl | hx'
-      · rcases List.mem_cons.mp hy with rfl | hy'
-        · rfl
-        · have := hlt y hy'; omega
-      · rcases List.mem_cons.mp hy with rfl | hy'
-        · have := hlt x hx'; omega
-        · exact ih hl.2.2 x hx' y hy' hxy
 
 /-! ### the cache as a set -/
 
@@ -221,23 +151,14 @@ theorem Good.atHeight (H : Hyp T U g hi lo) {s : State} (G : Good T U g hi lo s)
   have hx' : x ∈ s.best := by rw [hb]; exact hx
   exact ⟨x, hx', hxh, by rw [← hxh]; exact G.atBest hx'⟩
 
-/-- the height of a block about to be connected: one above the tip. -/
+theorem Good.toL {s : State} (G : Good T U g hi lo s) : LGood U g s :=
+  ⟨G.linked, G.bestU, G.idxU, G.par⟩
+
 theorem conn_height (H : Hyp T U g hi lo) {s : State} (G : Good T U g hi lo s) (hseen : Seen (fun b => b ∈ U) s)
     {b tip : Blk} {rest : List Blk} (hbU : b ∈ U) (hst : (s.stored b.id).isSome = true)
     (hbest : s.best = tip :: rest) (hpar : b.parent = tip.id) :
-    b.height = tip.height + 1 ∧ ∃ p ∈ U, p.id = b.parent ∧ b.height = p.height + 1 := by
-  have htipU : tip ∈ U := G.bestU tip (by rw [hbest]; simp)
-  cases hx : s.stored b.id with
-  | none => rw [hx] at hst; cases hst
-  | some x0 =>
-    have hx0 := hseen.2 b.id x0 hx
-    have hl := H.headerLaw x0 hx0.1 b hbU hx0.2
-    rcases G.par b.id x0 hx with rfl | ⟨p, hpU, hpid, hph⟩
-    · exfalso
-      have : tip.id = x0.parent := by rw [← hpar, hl.1]
-      exact H.gpar tip htipU this
-    · have hp := H.headerLaw p hpU tip htipU (by rw [hpid, hl.1, hpar])
-      exact ⟨by omega, p, hpU, by rw [hpid, hl.1], by omega⟩
+    b.height = tip.height + 1 ∧ ∃ p ∈ U, p.id = b.parent ∧ b.height = p.height + 1 :=
+  lconn_height H.headerLaw H.gpar G.toL hseen hbU hst hbest hpar
 
 /-- what the duplicate check of a successful execution gives: no hash twice in the block, none of
 them on the chain yet — TxHeight transactions included, thanks to the window invariant. -/
@@ -322,10 +243,6 @@ theorem Good.le_tip {s : State} (G : Good T U g hi lo s) {tip : Blk} {rest : Lis
 theorem chainKeys_cons (T : Table) (b : Blk) (l : List Blk) :
     chainKeys T (b :: l) = b.txs.map (fun t => (T t).hash) ++ chainKeys T l := by
   simp [chainKeys]
-
-theorem lookup_id {idx : List Blk} {id : Nat} {p : Blk} (h : lookup idx id = some p) : p ∈ idx ∧ p.id = id := by
-  unfold lookup at h
-  exact ⟨List.mem_of_find?_eq_some h, by simpa using List.find?_some h⟩
 
 /-- a successful `connectBlock` keeps the window invariant. -/
 theorem winv_conn (H : Hyp T U g hi lo) (s : State) (b : Blk) (s' : State)
